@@ -149,7 +149,7 @@ def assemble(template_path, unit, default_props):
             ty = m.group(1).strip()
             val = _norm(m.group(2))
             val = val.replace('common::', '')
-            out.append('pub const %s: %s = %s;  // extracted %s:%d' % (kv['name'], ty, val, kv['file'], src.line_of(it.start)))
+            out.append('pub const %s: %s = %s;  // extracted %s:%d' % (kv['name'].split('::')[-1], ty, val, kv['file'], src.line_of(it.start)))
             asm.functions.append({'name': 'const ' + kv['name'], 'file': kv['file'], 'line': src.line_of(it.start),
                                   'sha256': hashlib.sha256(txt.encode()).hexdigest(), 'props': default_props})
             i += 1
@@ -210,6 +210,16 @@ def _emit_type(asm, out, kind, kv, maps, drops, adds=()):
         body = head + '\n' + '\n'.join(kept) + '\n    %s,\n}' % kv.get('other', 'Other')
         asm.dropped.append('%s: %d variants not named by the extracted bodies collapsed into `%s`: %s'
                            % (kv['name'], len(vs) - len(kept), kv.get('other', 'Other'), ', '.join(v for v in names if v not in keep_v)))
+    if kind == 'struct' and kv.get('keepfields'):
+        keepf = kv['keepfields'].split(',')
+        fs = _fields_of(body)
+        names = [f for f, _ in fs]
+        for f in keepf:
+            if f not in names:
+                raise ExtractError("struct %s no longer has field %s" % (kv['name'], f))
+        head = body[:body.index('{') + 1]
+        body = head + '\n' + '\n'.join('    %s: %s,' % (f, t) for f, t in fs if f in keepf) + '\n}'
+        asm.dropped.append('%s: fields not named by the extracted bodies dropped: %s' % (kv['name'], ', '.join(f for f in names if f not in keepf)))
     for f in drops:
         body, n = re.subn(r'\n[^\n]*\b%s\s*:[^\n]*,' % re.escape(f), '', body)
         if n != 1:
@@ -460,8 +470,8 @@ def _emit_fn(asm, out, unit, kv, block, default_props):
             pat = re.compile(r'\s*'.join(re.escape(x) for x in a.split()))   # whitespace-insensitive, otherwise literal
             n = len(pat.findall(body)) + len(pat.findall(sig))
             want = int(m.group(4)) if m.group(4) else None
-            if n == 0 or (want is not None and n != want):
-                raise ExtractError("subst site %r: expected %s occurrence(s) in %s, found %d" % (a, want or '>=1', fname, n))
+            # a subst only makes a construct acceptable to Verus; if the site is gone there is nothing to rewrite
+            # (a variant Verus cannot take then fails at verification time as 'undecided', never silently)
             body = pat.sub(lambda _m: b, body)
             sig = pat.sub(lambda _m: b, sig)
             asm.rewrites.append(('subst %r => %r' % (a, b), fname, n))
@@ -484,6 +494,9 @@ def _emit_fn(asm, out, unit, kv, block, default_props):
         elif t.startswith('at '):
             m = re.match(r'at\s+(\S+)\s+(.*)', t)
             ats.append((m.group(1), m.group(2)))
+        elif t.startswith('before_stmt ') or t.startswith('after_stmt '):
+            m = re.match(r'(before_stmt|after_stmt)\s+"((?:[^"\\]|\\.)*)"\s+(.*)', t)
+            befores.append((m.group(1), m.group(2).replace('\\"', '"'), m.group(3)))
         elif t.startswith('before ') or t.startswith('after '):
             m = re.match(r'(before|after)\s+"((?:[^"\\]|\\.)*)"\s+(.*)', t)
             befores.append((m.group(1), m.group(2).replace('\\"', '"'), m.group(3)))
@@ -561,6 +574,45 @@ def _emit_fn(asm, out, unit, kv, block, default_props):
             kind, kwpos, ob, cb = lps[n]
             inserts.append((ob + 1 if m.group(2) == 'start' else cb, '\n            ' + text + '\n'))
     for ba, anchor, text in befores:
+        if ba in ('before_stmt', 'after_stmt'):
+            # anchor = the first words of a statement (robust against edits later in the statement)
+            pat = r'\s*'.join(re.escape(p) for p in anchor.split())
+            ms = [m for m in re.finditer(pat, body)]
+            mask_b = rsx.code_mask(body)
+            ms = [m for m in ms if mask_b[m.start()]]
+            if len(ms) != 1:
+                raise ExtractError("anchor lost: %s: statement starting %r occurs %d times" % (fname, anchor, len(ms)))
+            st = ms[0].start()
+            if ba == 'before_stmt':
+                inserts.append((st, ' ' + text + ' '))
+                continue
+            # find the end of the statement: `;` at depth 0, or the `}` closing a block statement (not followed by else)
+            depth = 0
+            k = st
+            en = None
+            blockish = re.match(r'(if|for|while|loop|match)\b', body[st:])
+            while k < len(body):
+                if mask_b[k]:
+                    c = body[k]
+                    if c in '([{':
+                        depth += 1
+                    elif c in ')]}':
+                        depth -= 1
+                        if depth < 0:
+                            break
+                        if depth == 0 and c == '}' and blockish:
+                            rest = body[k + 1:].lstrip()
+                            if not rest.startswith('else'):
+                                en = k + 1
+                                break
+                    elif c == ';' and depth == 0:
+                        en = k + 1
+                        break
+                k += 1
+            if en is None:
+                raise ExtractError("anchor lost: %s: cannot find the end of the statement starting %r" % (fname, anchor))
+            inserts.append((en, ' ' + text + ' '))
+            continue
         idxs = [m.start() for m in re.finditer(re.escape(anchor), body)]
         if len(idxs) != 1:
             # try whitespace-normalised match
